@@ -44,6 +44,17 @@ CLAIMED['C18'] = (
     'depth exactness is proved within the bounds; the cost clause is checked up to the stated depth only (growth beyond it '
     'is extrapolated); known finding K-C18-union-stage-retry-exponential is reported, not hidden',
     'symbolic execution of the real code (CrossHair primitives + z3), path-tree exhaustion, concrete replay')
+CLAIMED['C06'] = (
+    'Bounded symbolic differential model checking of BaseParser.data_first_parse against field_first_parse: for 9 data '
+    'class declarations (aliases, case-insensitive names, no_input/no_output, modes, dependencies, on_error policies, '
+    'deferred defaults) the set of supplied keys (every accepted spelling, case variants, an unknown key), their order, '
+    'their values (unbounded solver integers plus a convertible / an invalid string) and the options of one option group '
+    '(ignore_required, no_default, force_default, defer_default, ignore_alias_conflicts, addition, min/max_params as solver '
+    'integers, mode, invalid_values) are chosen by the solver; both strategies run on the same input and must give equal '
+    'data or, on failure, equal collected (error class, item) sets; path trees are exhausted per declaration x group.',
+    'a differential oracle needs no expected values; combinations of option groups and non-int field types are outside the '
+    'bounds; known finding K-C06-several-spellings-differing is reported, not hidden',
+    'symbolic execution of the real code (CrossHair primitives + z3), differential assertion, path-tree exhaustion, concrete replay')
 NOT_APPLICABLE = {}
 
 def main():
